@@ -368,7 +368,7 @@ Section Lookups.
     - unfold nth_chk at 1. destruct (nthN (s_filtered s) q) as [a|]; cbn [bind]; [|discriminate].
       unfold nth_chk. destruct (nthN all a) as [m'|] eqn:E; [|discriminate]. intros H; inversion H; subst. eauto.
     - cbn [bind]. unfold nth_chk. destruct (nthN all q) as [m'|] eqn:E; [|discriminate]. intros H; inversion H; subst.
-      exists q. apply nthN_some_lt in E. apply N.ltb_lt in E. rewrite E. auto.
+      exists q. pose proof (nthN_some_lt _ _ _ E) as E0. apply N.ltb_lt in E0. rewrite E0. auto.
   Qed.
 
   Lemma filtered_increasing : s_filters_active s = true -> increasing (s_filtered s).
@@ -388,7 +388,7 @@ Section Lookups.
   Proof.
     intros Hbs Hai. cbv zeta. unfold stream_pos_with, all_pos, slen, stream_len.
     destruct (s_filters_active s) eqn:Ea.
-    - pose proof (filtered_increasing eq_refl) as Hinc.
+    - pose proof (filtered_increasing Ea) as Hinc.
       exact (valid_first_not_before _ ai _ Hinc (Hbs _ _ (increasing_partitioned _ ai Hinc))).
     - split; [exact Hai|]. split.
       + intros q a Hq H. destruct (q <? len all); inversion H; subst; exact Hq.
